@@ -35,3 +35,38 @@ Theorem C16_share : forall cls iw, wf_input cls iw ->
         (w = n * x / dn \/ (w = 1 /\ n * x / dn = 0 /\ 0 < cw c)).
 Proof. exact rebalance_share. Qed.
 Print Assumptions C16_share.
+
+(* ---- blue/green (buildBackendBlueGreenBalance), both modes ---- *)
+
+(* every weight written on a server is in 0..256, whatever the configured numbers
+   (they are clamped), the replica counts and the labels *)
+Theorem C16_bluegreen_deploy_range : forall ws iw eps, 1 <= iw <= 256 ->
+  forall w, In w (bg_server_weights ws iw eps) -> 0 <= w <= 256.
+Proof. exact bg_deploy_range. Qed.
+Print Assumptions C16_bluegreen_deploy_range.
+
+Theorem C16_bluegreen_pod_range : forall ws eps,
+  forall w, In w (bg_pod_weights ws eps) -> 0 <= w <= 256.
+Proof. exact bg_pod_range. Qed.
+Print Assumptions C16_bluegreen_pod_range.
+
+(* a draining server, or one that matches no group, gets weight zero in both modes *)
+Theorem C16_bluegreen_unmatched_zero : forall ws iw eps k e,
+  nth_error eps k = Some e -> fst e = true \/ bg_group (length ws) e = None ->
+  nth_error (bg_server_weights ws iw eps) k = Some 0 /\ nth_error (bg_pod_weights ws eps) k = Some 0.
+Proof. exact bg_unmatched_zero. Qed.
+Print Assumptions C16_bluegreen_unmatched_zero.
+
+(* a live server of group i: zero exactly when the (clamped) configured weight of the group
+   is zero (mode deploy); exactly the clamped configured weight (mode pod) *)
+Theorem C16_bluegreen_deploy_zero_iff : forall ws iw eps k e i, 1 <= iw <= 256 ->
+  nth_error eps k = Some e -> fst e = false -> bg_group (length ws) e = Some i ->
+  exists w, nth_error (bg_server_weights ws iw eps) k = Some w /\ (w = 0 <-> clamp256 (nth i ws 0) = 0).
+Proof. exact bg_deploy_zero_iff. Qed.
+Print Assumptions C16_bluegreen_deploy_zero_iff.
+
+Theorem C16_bluegreen_pod_value : forall ws eps k e i,
+  nth_error eps k = Some e -> fst e = false -> bg_group (length ws) e = Some i ->
+  nth_error (bg_pod_weights ws eps) k = Some (clamp256 (nth i ws 0)).
+Proof. exact bg_pod_value. Qed.
+Print Assumptions C16_bluegreen_pod_value.
